@@ -572,7 +572,11 @@ class _Interpolator(object):
         """
         if self.input_type == 'meshgrid':
             # Given a meshgrid, the evaluation will be on a ragged array.
-            x = np.asarray(x, dtype=object)
+            # Fill item by item: `np.asarray(x, dtype=object)` fails for
+            # shapes like (1, 1) and (1, n) (first axes agree).
+            x_in, x = x, np.empty(len(x), dtype=object)
+            for i, xi in enumerate(x_in):
+                x[i] = xi
         else:
             x = np.asarray(x)
 
